@@ -72,14 +72,14 @@ theorem absRun_append (kind : Kind) (csd : List UInt8) (st : Store) (pre post : 
 
 /-- Every legal session from an identified card satisfying the invariant: each call returns the
 abstract answer, and the invariant holds for the abstract store afterwards. -/
-theorem session_from_inv (kind : Kind) (csd : List UInt8) (ncr nac busy : Nat)
+theorem session_from_inv (kind : Kind) (csd : List UInt8) (ncr nac busy gap : Nat)
     (hncr : ncr ≤ DEFAULT_COMMAND_RETRIES) (hnac : nac ≤ DEFAULT_READ_RETRIES)
-    (hbusy : busy ≤ DEFAULT_WRITE_RETRIES) :
+    (hbusy : busy ≤ DEFAULT_WRITE_RETRIES) (hgap : gap ≤ 1) :
     ∀ (calls : List Call) (st : Store) (s : St Card), (∀ j, (st j).length = 512) →
-    SessInv kind csd ncr nac busy st s → s.bus.busyLeft ≤ DEFAULT_COMMAND_RETRIES →
+    SessInv kind csd ncr nac busy gap st s → s.bus.busyLeft ≤ DEFAULT_COMMAND_RETRIES →
     (∀ c ∈ calls, Legal kind csd c) → (busy ≤ DEFAULT_COMMAND_RETRIES ∨ MultiReadsLast calls) →
     ∃ s', runSession cardBus calls s = (.ok (absRun kind csd st calls).1, s') ∧
-      SessInv kind csd ncr nac busy (absRun kind csd st calls).2 s' ∧ s'.useCrc = s.useCrc := by
+      SessInv kind csd ncr nac busy gap (absRun kind csd st calls).2 s' ∧ s'.useCrc = s.useCrc := by
   intro calls
   induction calls with
   | nil => intro st s _ hI _ _ _; exact ⟨s, rfl, hI, rfl⟩
@@ -87,7 +87,7 @@ theorem session_from_inv (kind : Kind) (csd : List UInt8) (ncr nac busy : Nat)
     intro st s hst hI hbl hleg hbr
     have hc := hleg c (List.mem_cons_self ..)
     have hne : c ≠ .markUninit := by intro h; rw [h] at hc; exact hc
-    obtain ⟨s1, h1, hI1, hb1, hb2, hu1⟩ := callOp_step kind csd ncr nac busy hncr hnac hbusy st hst s hI hbl c hc
+    obtain ⟨s1, h1, hI1, hb1, hb2, hu1⟩ := callOp_step kind csd ncr nac busy gap hncr hnac hbusy hgap st hst s hI hbl c hc
     rw [← call_identified cardBus c hne s _ hI.ct] at h1
     cases cs with
     | nil =>
@@ -110,41 +110,41 @@ theorem session_from_inv (kind : Kind) (csd : List UInt8) (ncr nac busy : Nat)
 
 /-- `acquire` on a freshly powered card establishes the session invariant for the all-zero store
 (an empty card reads as zeros). -/
-theorem acquire_inv (kind : Kind) (csd : List UInt8) (ncr nac busy initPolls : Nat)
+theorem acquire_inv (kind : Kind) (csd : List UInt8) (ncr nac busy initPolls gap : Nat)
     (hncr : ncr ≤ DEFAULT_COMMAND_RETRIES) (hpolls : initPolls ≤ DEFAULT_COMMAND_RETRIES)
-    (s : St Card) (hbus : s.bus = Spec.Card.mk kind csd ncr nac busy initPolls) :
-    ∃ s0, acquire cardBus s = (.ok (), s0) ∧ SessInv kind csd ncr nac busy (fun _ => zeros512) s0 ∧
+    (s : St Card) (hbus : s.bus = Spec.Card.mk kind csd ncr nac busy initPolls gap) :
+    ∃ s0, acquire cardBus s = (.ok (), s0) ∧ SessInv kind csd ncr nac busy gap (fun _ => zeros512) s0 ∧
       s0.bus.busyLeft = 0 ∧ s0.useCrc = s.useCrc ∧ s0.acquireRetries = s.acquireRetries := by
   obtain ⟨s0, N, h, hb, hc, hu, hr⟩ := acquire_card s (by rw [hbus]; exact ⟨rfl, rfl, rfl, rfl⟩) (by rw [hbus]; rfl)
     (by rw [hbus]; exact hncr) (by rw [hbus]; exact hpolls)
   rw [hbus] at hb hc
-  refine ⟨s0, h, ⟨?_, ?_, ?_, ?_, ?_, ?_, ?_, ?_, hc, ?_, ?_⟩, by rw [hb]; rfl, hu, hr⟩ <;> try (rw [hb]; rfl)
+  refine ⟨s0, h, ⟨?_, ?_, ?_, ?_, ?_, ?_, ?_, ?_, ?_, hc, ?_, ?_⟩, by rw [hb]; rfl, hu, hr⟩ <;> try (rw [hb]; rfl)
   · rw [hb]; exact ⟨rfl, rfl, rfl, rfl, rfl, rfl⟩
   · rw [hb, hu]; rfl
   · intro j
     rw [hb]
-    show (Spec.Card.mk kind csd ncr nac busy initPolls).mem.getD j zeros512 = zeros512
+    show (Spec.Card.mk kind csd ncr nac busy initPolls gap).mem.getD j zeros512 = zeros512
     exact Std.TreeMap.getD_emptyc
 
 /-- Every legal session on a freshly powered card, driver not yet initialised. -/
-theorem session_fresh (kind : Kind) (csd : List UInt8) (ncr nac busy initPolls : Nat)
+theorem session_fresh (kind : Kind) (csd : List UInt8) (ncr nac busy initPolls gap : Nat)
     (hncr : ncr ≤ DEFAULT_COMMAND_RETRIES) (hnac : nac ≤ DEFAULT_READ_RETRIES)
-    (hbusy : busy ≤ DEFAULT_WRITE_RETRIES) (hpolls : initPolls ≤ DEFAULT_COMMAND_RETRIES)
-    (s : St Card) (hbus : s.bus = Spec.Card.mk kind csd ncr nac busy initPolls) (hct : s.cardType = none)
+    (hbusy : busy ≤ DEFAULT_WRITE_RETRIES) (hpolls : initPolls ≤ DEFAULT_COMMAND_RETRIES) (hgap : gap ≤ 1)
+    (s : St Card) (hbus : s.bus = Spec.Card.mk kind csd ncr nac busy initPolls gap) (hct : s.cardType = none)
     (calls : List Call) (hleg : ∀ c ∈ calls, Legal kind csd c)
     (hbr : busy ≤ DEFAULT_COMMAND_RETRIES ∨ MultiReadsLast calls) :
     ∃ s', runSession cardBus calls s = (.ok (absRun kind csd (fun _ => zeros512) calls).1, s') ∧
       (∀ j, getBlock s'.bus j = (absRun kind csd (fun _ => zeros512) calls).2 j) ∧
       s'.bus.violations = [] ∧ s'.useCrc = s.useCrc ∧
-      (calls ≠ [] → SessInv kind csd ncr nac busy (absRun kind csd (fun _ => zeros512) calls).2 s') := by
+      (calls ≠ [] → SessInv kind csd ncr nac busy gap (absRun kind csd (fun _ => zeros512) calls).2 s') := by
   cases calls with
   | nil =>
     refine ⟨s, rfl, fun j => ?_, by rw [hbus]; rfl, rfl, fun h => absurd rfl h⟩
     rw [hbus]
-    show (Spec.Card.mk kind csd ncr nac busy initPolls).mem.getD j zeros512 = zeros512
+    show (Spec.Card.mk kind csd ncr nac busy initPolls gap).mem.getD j zeros512 = zeros512
     exact Std.TreeMap.getD_emptyc
   | cons c cs =>
-    obtain ⟨s0, h0, hI0, hb0, hu0, _⟩ := acquire_inv kind csd ncr nac busy initPolls hncr hpolls s hbus
+    obtain ⟨s0, h0, hI0, hb0, hu0, _⟩ := acquire_inv kind csd ncr nac busy initPolls gap hncr hpolls s hbus
     have hinit : checkInit cardBus s = (.ok (), s0) := by
       unfold checkInit
       rw [bind_ok (get_apply s)]
@@ -153,7 +153,7 @@ theorem session_fresh (kind : Kind) (csd : List UInt8) (ncr nac busy initPolls :
     have hc := hleg c (List.mem_cons_self ..)
     have hne : c ≠ .markUninit := by intro h; rw [h] at hc; exact hc
     have hst0 : ∀ j : Nat, ((fun _ => zeros512 : Store) j).length = 512 := fun _ => zeros512_length
-    obtain ⟨s1, h1, hI1, hb1, hb2, hu1⟩ := callOp_step kind csd ncr nac busy hncr hnac hbusy _ hst0 s0 hI0
+    obtain ⟨s1, h1, hI1, hb1, hb2, hu1⟩ := callOp_step kind csd ncr nac busy gap hncr hnac hbusy hgap _ hst0 s0 hI0
       (by rw [hb0]; exact Nat.zero_le _) c hc
     rw [← call_of_checkInit cardBus c hne s s0 hinit] at h1
     cases cs with
@@ -170,7 +170,7 @@ theorem session_fresh (kind : Kind) (csd : List UInt8) (ncr nac busy initPolls :
           rcases hbr with h | h
           · exact h
           · exact absurd (h.1 hm) (by simp)
-      obtain ⟨s2, h2, hI2, hu2⟩ := session_from_inv kind csd ncr nac busy hncr hnac hbusy (c' :: cs') _ s1
+      obtain ⟨s2, h2, hI2, hu2⟩ := session_from_inv kind csd ncr nac busy gap hncr hnac hbusy hgap (c' :: cs') _ s1
         (absCall_wf kind csd _ hst0 c hc) hI1 hbl1
         (fun x hx => hleg x (List.mem_cons_of_mem _ hx)) (hbr.imp id fun h => h.2)
       refine ⟨s2, ?_, hI2.mem, hI2.viol, (hu2.trans hu1).trans hu0, fun _ => hI2⟩
